@@ -872,6 +872,7 @@ J generate_plan(const std::string &prop, uint64_t seed, const std::string &tier)
   if (prop == "C05sweep") { long total = 0; J p = plan_c05sweep(seed, &total); if (p.is_null()) { J e = J::obj(); e["total"] = (long long)total; return e; } return p; }
   if (prop == "C07") return plan_c07(seed, tier, false, "C07");
   if (prop == "C05") return plan_c05(seed, tier);
+  if (prop == "C05ft") { J p = plan_c05(seed ^ 0x5f7, tier); p["variant"] = "asan-ft"; p["seed"] = (long long)seed; return p; }
   if (prop == "C09") return plan_c09(seed, tier);
   if (prop == "C12") return plan_c12(seed, tier);
   if (prop == "C14") return plan_c14(seed, tier);
